@@ -10,6 +10,10 @@ namespace Kyber.IR
 def ringOps (F : Type) [CommRing F] : Ops F :=
   { add := (· + ·), sub := (· - ·), mul := (· * ·), neg := (- ·), zero := 0, one := 1 }
 
+/-- The IR operations in a commutative ring with two distinguished unary maps (tower levels). -/
+def towerOps (F : Type) [CommRing F] (s1 s2 : F → F) : Ops F :=
+  { add := (· + ·), sub := (· - ·), mul := (· * ·), neg := (- ·), zero := 0, one := 1, sp1 := s1, sp2 := s2 }
+
 /-- Frame rule: a location that no instruction writes keeps its value. -/
 theorem run_frame {α : Type} (o : Ops α) (p : List Instr) (s : Loc → α) (l : Loc)
     (h : l ∉ writes p) : run o p s l = s l := by
